@@ -27,11 +27,50 @@ def show_device(d) -> str:
     return "unknown-class " + type(d).__name__
 
 
-def parse_direct(hexdgram: str) -> str:
-    """what one datagram leads to: ignored | warn | raise E | device …"""
+_RECEIVE_BUFFER = bytearray()
+
+
+class debug_logging:
+    """`with debug_logging():` - the library's loggers at DEBUG with a handler that formats every record and throws it away (the
+    harness otherwise runs with logging disabled): what a datagram leads to must not depend on the log level"""
+
+    def __enter__(self):
+        import logging
+
+        class Swallow(logging.Handler):
+            def emit(self, record):
+                record.getMessage()
+        self.lg = logging.getLogger("aioswitcher")
+        self.saved = (logging.root.manager.disable, self.lg.level, self.lg.propagate)
+        self.h = Swallow()
+        logging.disable(logging.NOTSET)
+        self.lg.setLevel(logging.DEBUG)
+        self.lg.propagate = False
+        self.lg.addHandler(self.h)
+        return self
+
+    def __exit__(self, *exc):
+        import logging
+        self.lg.removeHandler(self.h)
+        self.lg.setLevel(self.saved[1])
+        self.lg.propagate = self.saved[2]
+        logging.disable(self.saved[0])
+        return False
+
+
+def parse_direct(hexdgram: str, how: str = "bytes") -> str:
+    """what one datagram leads to: ignored | warn | raise E | device …
+    how = "bytes": a bytes object of its own (what asyncio hands over); "buffer": the datagram sits in ONE bytearray that is refilled
+    for every datagram (a caller of the parser with its own receive buffer); "debug": as bytes, with the library logging at DEBUG"""
     from aioswitcher.bridge import _parse_device_from_datagram
     got: List[Any] = []
     data = bytes.fromhex(hexdgram) if hexdgram != "-" else b""
+    if how == "buffer":
+        _RECEIVE_BUFFER[:] = data
+        data = _RECEIVE_BUFFER
+    if how == "debug":
+        with debug_logging():
+            return parse_direct(hexdgram)
     with warnings.catch_warnings(record=True) as w:
         warnings.simplefilter("always")
         try:
@@ -212,8 +251,38 @@ def default_ports() -> List[int]:
     return list(inspect.signature(SwitcherBridge.__init__).parameters["broadcast_ports"].default)
 
 
+CALLBACK_FORMS = ("function", "lambda", "method", "partial", "callable-object", "start-again")
+
+
+def callback_in_form(form: str, target):
+    """the user's callback as another kind of callable, built so that NOTHING but the bridge refers to it once it has been handed
+    over (an inline lambda, a bound method of an object created on the spot, a functools.partial, an object with __call__)"""
+    import functools
+    if form == "lambda":
+        return lambda device: target(device)
+    if form == "method":
+        class Handler:
+            def __init__(self, t):
+                self.t = t
+
+            def on_device(self, device):
+                self.t(device)
+        return Handler(target).on_device
+    if form == "partial":
+        return functools.partial(target)
+    if form == "callable-object":
+        class Sink:
+            def __init__(self, t):
+                self.t = t
+
+            def __call__(self, device):
+                self.t(device)
+        return Sink(target)
+    return target
+
+
 async def _run_bridge_sequence(nports: int, arrivals: List[Tuple[int, str]], fail_on, wellknown=False, restart=False,
-                               burst=False) -> Tuple[str, List[str]]:
+                               burst=False, cbform="function") -> Tuple[str, List[str]]:
     """arrivals: (port index, datagram hex).  One datagram in flight at a time per test step: after each
     datagram a sentinel on the same port is the delivery barrier (UDP on loopback keeps per-socket order)."""
     from aioswitcher.bridge import SwitcherBridge
@@ -232,7 +301,9 @@ async def _run_bridge_sequence(nports: int, arrivals: List[Tuple[int, str]], fai
             if len(col.calls) > n_before:
                 per_port.setdefault(cb.current_port, []).append(col.calls[-1][1])
     cb.current_port = -1
-    bridge = SwitcherBridge(cb) if wellknown else SwitcherBridge(cb, ports)
+    bridge = SwitcherBridge(callback_in_form(cbform, cb)) if wellknown else SwitcherBridge(callback_in_form(cbform, cb), ports)
+    import gc
+    gc.collect()        # a callback only the bridge refers to must still be there
     tx = socket.socket(socket.AF_INET, socket.SOCK_DGRAM)
     order: List[Tuple[int, str]] = []
     with warnings.catch_warnings(record=True):
@@ -263,6 +334,12 @@ async def _run_bridge_sequence(nports: int, arrivals: List[Tuple[int, str]], fai
             await bridge.stop()
             tx.close()
             return f"0 PORT-SHARED(another socket could bind {len(thieves)} of the bridge's ports while it was running)", []
+        if cbform == "start-again":     # start() on a bridge that is running fails (its own ports are taken) and changes nothing
+            try:
+                await bridge.start()
+            except Exception:  # noqa
+                pass
+            await asyncio.sleep(0)
         if restart:                 # a bridge that has been stopped and started again is a running bridge like any other
             await bridge.stop()
             await asyncio.sleep(0)
@@ -314,14 +391,14 @@ async def _run_bridge_sequence(nports: int, arrivals: List[Tuple[int, str]], fai
 GIVE_UP_AFTER = 3  # lost barriers after which further sequences are not attempted (set to a large number while shrinking a failure)
 
 
-def run_bridge_sequence(nports: int, arrivals, fail_on=(), wellknown=False, restart=False, burst=False) -> str:
+def run_bridge_sequence(nports: int, arrivals, fail_on=(), wellknown=False, restart=False, burst=False, cbform="function") -> str:
     if LOST >= GIVE_UP_AFTER:
         return "0 NOT-RUN(the bridge lost deliveries in 3 earlier sequences)"
     if wellknown:
         with WellKnownPorts(wait=20.0) as mine:
             if not mine:
                 return "0 NOT-RUN(the well-known ports are in use on this machine right now)"
-            shown, errs = H.loop().run_until_complete(_run_bridge_sequence(nports, arrivals, fail_on, wellknown, restart, burst))
+            shown, errs = H.loop().run_until_complete(_run_bridge_sequence(nports, arrivals, fail_on, wellknown, restart, burst, cbform))
             return shown
-    shown, errs = H.loop().run_until_complete(_run_bridge_sequence(nports, arrivals, fail_on, wellknown, restart, burst))
+    shown, errs = H.loop().run_until_complete(_run_bridge_sequence(nports, arrivals, fail_on, wellknown, restart, burst, cbform))
     return shown
